@@ -181,6 +181,21 @@ theorem simple_field_denotes_value (k sep v : Bytes) (hs : ∀ c ∈ sep, isWs c
     (simpleField k sep v).value = v :=
   simpleField_value k sep v hs hc
 
+/-- A stanza written as ANY permutation of the fields `Package`, `Status`,
+    `Version`, `Architecture` (and `Source` when the entry has one) and any
+    other fields (any keys that are not one of these five after
+    canonicalisation, any continuation lines), each of the five on one line
+    with any spaces/tabs after the colon, states its entry — the hypothesis
+    `AllStates` of the exactness theorem holds for every such writer. -/
+theorem dpkg_stanza_any_field_order (e : Entry) (status : Bytes) (seps : Fin 5 → Bytes) (extras fs : List Field)
+    (hperm : fs.Perm (stdFields e status seps ++ extras))
+    (hex : ∀ x ∈ extras, canonLoop true x.key ∉ reservedKeys)
+    (hseps : ∀ i, ∀ c ∈ seps i, isWs c = true)
+    (hst : statusInstalled status = e.installed)
+    (cn : Clean e.name) (cv : Clean e.version) (ca : Clean e.arch) (cs : Clean status) (csrc : Clean e.sourceField) :
+    States (hdrOf fs) e :=
+  states_of_written e status seps extras fs hperm hex hseps hst cn cv ca cs csrc
+
 /-- Field order is irrelevant: if a key occurs in a stanza's header with a
     single value, `Get` returns it wherever the field stands. -/
 theorem field_order_irrelevant (h h' : Hdr) (k v : Bytes) (hp : h.Perm h') (hu : Hdr.Unique h k v) :
